@@ -51,7 +51,7 @@ Definition run_derive (holds : caseDerive -> bool) (cs : list caseDerive) : stri
 
 Definition holds06c (c : caseDerive) : bool := holds06 (trait_name (dc_trait c)) (dc_obs c).
 
-From DarlingModel Require Import Spec.C10.
+From DarlingModel Require Import Spec.C10 Options.ComposeProofs.
 
 (** C10 on the implementation's verdict *)
 Definition holds10 (c : caseDerive) : bool :=
@@ -61,5 +61,7 @@ Definition holds10 (c : caseDerive) : bool :=
       let accepted := match d_impls (dc_obs c), d_diags (dc_obs c) with [_], [] => true | _, _ => false end in
       let rejected := match d_impls (dc_obs c), d_diags (dc_obs c) with [], _ :: _ => true | _, _ => false end in
       let wf := well_formed_10 (reparse_of (dc_or c)) (reparse_preds_of (dc_or c)) (dc_trait c) (dc_decl c) in
-      (accepted || rejected) && Bool.eqb accepted wf
+      (* [decl_shapedb]: the declaration meets the hypothesis of the composition theorem
+         (Options/ComposeProofs.v [resolve_is_the_reading]: the model accepts iff [wf], up to the recorded finding) *)
+      decl_shapedb (dc_decl c) && (accepted || rejected) && Bool.eqb accepted wf
   end.
